@@ -15,13 +15,18 @@ for d in ${@:-$HERE/../seeded/*}; do
   cp /repo/Cargo.lock $W/
   git -C $W apply $d/patch.diff || { echo "$id: patch does not apply"; continue; }
   caught=""; missed=""; errs=""
-  for p in ${PROPS:-$ALL}; do
+  # per-id list of checks (longest matching prefix in matrix_props.txt), unless PROPS is given
+  sel=""
+  if [ -z "${PROPS:-}" ] && [ -f $HERE/matrix_props.txt ]; then
+    sel=$(grep -v '^#' $HERE/matrix_props.txt | awk -v id="$id" '{ if (index(id, $1) == 1 && length($1) > best) { best = length($1); $1 = ""; line = $0 } } END { print line }')
+  fi
+  for p in ${PROPS:-${sel:-$ALL}}; do
     VERIF_OUT_DIR=$OUT WALLEYE_REPO=$W timeout 1700 $HERE/../check $p --tier quick > $OUT/$id.$p.log 2>&1
     rc=$?
     if [ $rc -eq 1 ]; then caught="$caught $p"; elif [ $rc -eq 0 ]; then missed="$missed $p"; else errs="$errs $p($rc)"; fi
   done
   first=$(grep -h -A1 "^VIOLATION" $OUT/$id.*.log | grep "family=" | head -1 | cut -c1-300 | sed 's/"/\\"/g')
-  echo "{\"id\":\"$id\",\"tier\":\"quick\",\"seed\":0,\"checks_reporting_a_violation\":\"$(echo $caught)\",\"checks_silent\":\"$(echo $missed)\",\"checks_inconclusive\":\"$(echo $errs)\",\"example\":\"$first\"}" > $OUT/$id.detect.json; cp $OUT/$id.detect.json $d/detect.json 2>/dev/null
+  echo "{\"id\":\"$id\",\"tier\":\"quick\",\"seed\":0,\"checks_reporting_a_violation\":\"$(echo $caught)\",\"checks_run\":\"$(echo ${PROPS:-${sel:-$ALL}})\",\"checks_silent\":\"$(echo $missed)\",\"checks_inconclusive\":\"$(echo $errs)\",\"example\":\"$first\"}" > $OUT/$id.detect.json; cp $OUT/$id.detect.json $d/detect.json 2>/dev/null
   echo "$id caught_by:[$caught ] inconclusive:[$errs ]"
 done
 git -C /repo worktree remove --force $W >/dev/null 2>&1; git -C /repo worktree prune
